@@ -153,3 +153,24 @@ pub proof fn lemma_concat_take_next(c: Seq<Seq<u8>>, k: int)
     assert(c.take(k + 1) =~= c.take(k).push(c[k]));
     lemma_concat_push(c.take(k), c[k]);
 }
+/// the concatenation of the first k chunks is a prefix of the whole
+pub proof fn lemma_concat_take_prefix(c: Seq<Seq<u8>>, k: int)
+    requires 0 <= k <= c.len(),
+    ensures
+        concat(c.take(k)).len() <= concat(c).len(),
+        concat(c).subrange(0, concat(c.take(k)).len() as int) == concat(c.take(k)),
+    decreases c.len() - k,
+{
+    if k == c.len() {
+        assert(c.take(k) =~= c);
+        assert(concat(c).subrange(0, concat(c).len() as int) =~= concat(c));
+    } else {
+        lemma_concat_take_prefix(c, k + 1);
+        lemma_concat_take_next(c, k);
+        let a = concat(c.take(k));
+        let b = concat(c.take(k + 1));
+        assert(b == a + c[k]);
+        assert(concat(c).subrange(0, a.len() as int) =~= concat(c).subrange(0, b.len() as int).subrange(0, a.len() as int));
+        assert((a + c[k]).subrange(0, a.len() as int) =~= a);
+    }
+}
